@@ -394,7 +394,7 @@ func (g *g) n(lo, hi int, label string) int {
 	}
 	return lo + v%span
 }
-func (g *g) pct(p int, label string) bool   { return g.n(0, 99, label) < p }
+func (g *g) pct(p int, label string) bool { return g.n(0, 99, label) < p }
 func (g *g) pick(xs []string, label string) string {
 	return xs[g.n(0, len(xs)-1, label)]
 }
@@ -741,7 +741,15 @@ func (g *g) bashTest(d int) string {
 	case 0:
 		return q("$"+g.strVar()) + " " + g.pick([]string{"==", "=", "!="}, "eq") + " " + g.pick(casePats, "tpat")
 	case 1:
-		return q("$"+g.strVar()) + " " + g.pick([]string{"==", "=", "!="}, "eq") + ` "$` + g.strVar() + `"`
+		rhs := g.strVar()
+		lhs := q("$" + g.strVar())
+		if g.pct(40, "patvar") {
+			rhs = g.pick([]string{"p", "q"}, "patvarname")
+			if g.pct(50, "patlhs") {
+				lhs = g.cleanWord()
+			}
+		}
+		return lhs + " " + g.pick([]string{"==", "=", "!="}, "eq") + ` "$` + rhs + `"`
 	case 2:
 		return "-n " + q("$"+g.strVar())
 	case 3:
@@ -1910,6 +1918,10 @@ func Program(t *rapid.T, o Opts) string {
 	fmt.Fprintf(&sb, "n=%d m=%d k=%d\n", g.n(0, 9, "n0"), g.n(0, 9, "m0"), g.n(0, 9, "k0"))
 	fmt.Fprintf(&sb, "s=%s t=%s\n", g.cleanWord(), g.cleanWord())
 	fmt.Fprintf(&sb, "u='%s' v='%s' w=%s x=%s y=\n", g.pick(anyWords, "u0"), g.pick(anyWords, "v0"), g.cleanWord(), g.cleanWord())
+	// p and q hold glob patterns; they are only ever used double-quoted on the
+	// right of == = != inside [[ ]], where the quotes decide between literal
+	// and pattern comparison
+	fmt.Fprintf(&sb, "p='%s' q='%s'\n", g.pick(patterns, "p0"), g.pick(patterns, "q0"))
 	na := g.n(0, 4, "alen")
 	as := make([]string, na)
 	for i := range as {
